@@ -62,13 +62,22 @@ type refResult struct {
 }
 
 type engine struct {
-	r        *vlib.Run
-	cfg      config
-	ref      *dnsserver.FBDNSDB
-	progress *os.File
-	nextID   uint16
-	resent   int64
-	redials  int64
+	r           *vlib.Run
+	cfg         config
+	ref         *dnsserver.FBDNSDB
+	progress    *os.File
+	nextID      uint16
+	resent      int64
+	redials     int64
+	samples     []map[string]string
+	where       string
+	resentWhere []string
+}
+
+// sampleQueries are the cases shown in the evidence samples.
+var sampleQueries = map[string]bool{
+	"huge.example.com/TXT": true, "w4.example.com/A": true, whoamiDomain + "/TXT": true, "example.com/ANY": true,
+	"deleg.example.com/A": true, "manymx.example.com/MX": true, "geo.example.com/A+ecs4": true, "WwW.ExAmPlE.CoM/AAAA": true,
 }
 
 func (e *engine) id() uint16 {
@@ -80,6 +89,7 @@ func (e *engine) id() uint16 {
 }
 
 func (e *engine) mark(where string) {
+	e.where = where
 	if e.progress != nil {
 		b := make([]byte, 160)
 		for i := range b {
@@ -333,7 +343,13 @@ func childMain(r *vlib.Run, cfgJSON string) {
 		r.Add("configs_with_goroutines_left_after_shutdown", 1)
 	}
 	if e.resent > 0 || e.redials > 0 {
-		r.Note("retries: %d datagrams re-sent, %d TCP re-dials (never judged)", e.resent, e.redials)
+		r.Note("retries: %d datagrams re-sent, %d TCP re-dials (never judged) %v", e.resent, e.redials, e.resentWhere)
+	}
+	// a deterministic, varied selection of the interesting cases of this configuration
+	if n := len(e.samples); n > 0 {
+		for _, k := range []int{cfg.Idx * 7, cfg.Idx*11 + 3, cfg.Idx*13 + 17} {
+			r.Sample(e.samples[k%n])
+		}
 	}
 	e.mark("done")
 	r.Finish()
@@ -351,6 +367,9 @@ func (e *engine) send(l *listener, t transport, wire []byte, u *udpClient, tc *t
 	if !t.tcp {
 		before := u.resent
 		resp, err := u.exchange(wire, waits)
+		if u.resent > before && len(e.resentWhere) < 5 {
+			e.resentWhere = append(e.resentWhere, fmt.Sprintf("%s (x%d)", e.where, u.resent-before))
+		}
 		e.resent += u.resent - before
 		if err != nil {
 			// the socket reported an error (e.g. port unreachable): treated as silence
@@ -533,8 +552,9 @@ func (e *engine) runListener(l *listener, qs []query, ts []transport) {
 					}
 				}
 			}
-			if len(gots) == 1 && q.extra == "" && q.qtype == dns.TypeTXT {
-				r.Sample(map[string]string{"config": e.cfg.Name, "query": q.id(), "transport": t.String(), "reply": firstLine(render(resp))})
+			if sampleQueries[q.id()] {
+				e.samples = append(e.samples, map[string]string{"config": e.cfg.Name, "listener": l.spec.IP, "query": q.id(), "transport": t.String(),
+					"reply_bytes": fmt.Sprint(len(respWire)), "reply": firstLine(render(resp))})
 			}
 		}
 
